@@ -49,6 +49,9 @@ type invC15 struct {
 	// Out is what standard output is connected to: "" a pipe, "file" a
 	// regular file, "devnull" the character device /dev/null (not a terminal)
 	Out string `json:"out,omitempty"`
+	// Stdin names the member of the initial directory whose bytes are fed to
+	// standard input ("" = empty input); read by the operand "-"
+	Stdin string `json:"stdin,omitempty"`
 }
 
 // caseC15 is a directory and a history of one or two invocations on it.
@@ -347,6 +350,22 @@ func drawC15(t *rapid.T) caseC15 {
 				needDD = true
 			}
 		}
+		if rapid.IntRange(0, 7).Draw(t, "stdinop") == 0 {
+			// the operand "-": standard input, processed to standard output
+			// among the other operands
+			var members []string
+			for _, f := range c.Files {
+				comp := strings.HasPrefix(f.Kind, "gxz_") || strings.HasPrefix(f.Kind, "xzutils_") || strings.HasPrefix(f.Kind, "trunc_") || f.Kind == "corrupt_xz"
+				if f.Kind != "dir" && (comp == o.decompress || rapid.IntRange(0, 3).Draw(t, "stdinany") == 0) {
+					members = append(members, f.Name)
+				}
+			}
+			if len(members) > 0 && rapid.IntRange(0, 5).Draw(t, "stdinempty") > 0 {
+				inv.Stdin = rapid.SampledFrom(members).Draw(t, "stdinfrom")
+			}
+			at := rapid.IntRange(0, len(inv.Files)).Draw(t, "stdinat")
+			inv.Files = append(inv.Files[:at], append([]string{"-"}, inv.Files[at:]...)...)
+		}
 		inv.DashDash = needDD || rapid.IntRange(0, 4).Draw(t, "dd") == 0
 		for range inv.Flags {
 			inv.FlagPos = append(inv.FlagPos, rapid.IntRange(0, len(inv.Files)).Draw(t, "flagpos"))
@@ -355,6 +374,9 @@ func drawC15(t *rapid.T) caseC15 {
 		c.Invs = append(c.Invs, inv)
 		// names the next invocation may refer to
 		for _, n := range inv.Files {
+			if n == "-" {
+				continue
+			}
 			for _, s := range []string{".xz", ".lzma"} {
 				cur[n+s] = true
 				if strings.HasSuffix(n, s) {
@@ -564,6 +586,7 @@ type expectC15 struct {
 	stdout      []*node // nodes whose bytes standard output must hold, in order
 	stdoutFmt   string  // "" plain bytes; "xz"/"lzma": stdout is compressed and decodes to the nodes' bytes
 	stdoutExact bool    // false when a failing member may have written partial output
+	usesStdout  bool    // -c, or the operand "-"
 }
 
 func targetFor(name string, decompress bool, format string) (string, bool) {
@@ -586,12 +609,18 @@ func targetFor(name string, decompress bool, format string) (string, bool) {
 	return "", false
 }
 
-func stepModel(model map[string]*node, inv invC15) expectC15 {
-	o := inv.opts()
-	e := expectC15{stdoutExact: true}
+func stepModel(model map[string]*node, inv invC15, stdin *node) expectC15 {
+	all := inv.opts()
+	e := expectC15{stdoutExact: true, usesStdout: all.stdout}
 	fail := func() { e.exit = 1 }
 	for _, name := range inv.Files {
+		o := all
 		n := model[name]
+		if name == "-" {
+			// standard input: no name to derive a target from, the result goes
+			// to standard output; nothing to remove
+			n, o.stdout, e.usesStdout = stdin, true, true
+		}
 		if n == nil || n.dir {
 			fail()
 			continue
@@ -692,8 +721,10 @@ func checkC15(c caseC15, rec *ev.Rec) *ev.Failure {
 		return nil
 	}
 	origModes := map[string]uint32{}
+	orig := map[string]*node{}
 	for n, nd := range model {
 		origModes[n] = nd.mode
+		orig[n] = nd
 	}
 	for si, inv := range c.Invs {
 		args := inv.argv()
@@ -702,8 +733,12 @@ func checkC15(c caseC15, rec *ev.Rec) *ev.Failure {
 		for k, v := range model {
 			before[k] = v
 		}
-		exp := stepModel(model, inv)
-		stdout, stderr, code, stdoutKnown, err := runToolOut(dir, gxz, args, nil, inv.Out)
+		stdinNode := &node{raw: []byte{}}
+		if nd := orig[inv.Stdin]; nd != nil && !nd.dir && nd.raw != nil {
+			stdinNode = nd
+		}
+		exp := stepModel(model, inv, stdinNode)
+		stdout, stderr, code, stdoutKnown, err := runToolOut(dir, gxz, args, stdinNode.raw, inv.Out)
 		if err != nil {
 			rec.Incomplete("cannot run gxz: " + err.Error())
 			return nil
@@ -712,6 +747,9 @@ func checkC15(c caseC15, rec *ev.Rec) *ev.Failure {
 			rec.Class("stdout=" + inv.Out)
 		}
 		desc := fmt.Sprintf("step %d: gxz %q (stdout: %s) in a directory with %s", si, args, map[string]string{"": "pipe", "file": "regular file", "devnull": "/dev/null"}[inv.Out], describeDir(c.Files))
+		if inv.Stdin != "" {
+			desc += fmt.Sprintf(", standard input = the bytes of %q", inv.Stdin)
+		}
 		sig := []string{"step", fmt.Sprint(si)}
 		if bytes.Contains(stderr, []byte("panic:")) || bytes.Contains(stderr, []byte("goroutine ")) {
 			return ev.Fail(desc+": gxz panicked: "+string(stderr[:min(len(stderr), 600)]), append(sig, "what", "panic")...)
@@ -723,7 +761,7 @@ func checkC15(c caseC15, rec *ev.Rec) *ev.Failure {
 		// stdout
 		if !stdoutKnown {
 			// written to /dev/null: exit status and directory are judged
-		} else if !o.stdout {
+		} else if !exp.usesStdout {
 			if len(stdout) != 0 {
 				return ev.Fail(desc+": wrote to standard output without -c", append(sig, "what", "stdout_unwanted")...)
 			}
@@ -801,6 +839,11 @@ func checkC15(c caseC15, rec *ev.Rec) *ev.Failure {
 		if inv.DashDash {
 			rec.Class("dashdash")
 		}
+		for _, n := range inv.Files {
+			if n == "-" {
+				rec.Class("stdin_operand", fmt.Sprintf("stdin_operand/c=%v/files=%d", o.stdout, len(inv.Files)))
+			}
+		}
 		if !o.decompress {
 			f := o.format
 			if f == "auto" {
@@ -876,7 +919,7 @@ func describeDir(files []fileC15) string {
 
 func TestC15(t *testing.T) {
 	rec := ev.New("C15", "exploration")
-	rec.Rule = "rapid draws a directory (1-5 members: plain files, files compressed by gxz and by xz-utils with varied options in both formats, bit-flipped / truncated / not-compressed files with a compressed suffix, a directory; names with spaces, known / unknown / tar suffixes, leading dashes; modes 0400..0755) and a history of 1-2 invocations of the gxz binary built from the tree (options from {-d,-z,-k,-c,-f,-q,-v,-F/--format xz|lzma|alone|auto,-0..-9} in short, long, bundled, '=' and separate-argument styles, placed before, between and after 1-4 operands incl. a missing one, optional '--'); an executable model of the documented semantics predicts per operand success or failure, the resulting tree (plaintext of every file), standard output and whether the exit status is non-zero; compressed outputs are decoded by the reference decoder and tested by xz-utils; output modes must not exceed the source's; no temporary file may remain; non-trivial = >= 2 options or >= 2 operands; distinct = hash of the case"
+	rec.Rule = "rapid draws a directory (1-5 members: plain files, files compressed by gxz and by xz-utils with varied options in both formats, bit-flipped / truncated / not-compressed files with a compressed suffix, a directory; names with spaces, known / unknown / tar suffixes, leading dashes; modes 0400..0755) and a history of 1-2 invocations of the gxz binary built from the tree (options from {-d,-z,-k,-c,-f,-q,-v,-F/--format xz|lzma|alone|auto,-0..-9} in short, long, bundled, '=' and separate-argument styles, placed before, between and after 1-4 operands incl. a missing one and the operand '-' (standard input fed with a member's bytes or nothing), optional '--'); an executable model of the documented semantics predicts per operand success or failure, the resulting tree (plaintext of every file), standard output and whether the exit status is non-zero; compressed outputs are decoded by the reference decoder and tested by xz-utils; output modes must not exceed the source's; no temporary file may remain; non-trivial = >= 2 options or >= 2 operands; distinct = hash of the case"
 	rec.Assumptions = []string{"names that gflag would take for the optional argument of a boolean/counter option (1, true, leading dash) are only used after '--'", "files compressed twice are modelled loosely (safety only)", "umask 0"}
 	drive(t, rec, drawC15, checkC15)
 }
